@@ -6,8 +6,10 @@ from both.  The REAL qmail-newu compiles the table, the REAL qmail-lspawn (the d
 resolves every address with the REAL qmail-getpw, and shim/standin is installed as bin/qmail-local: its record
 gives the exact argv and the credential state accumulated by the shim; the shim trace gives the order of
 setgroups/setgid/setuid/exec.  Oracle = independent model of qmail-users.9 / qmail-getpw.9 (DESIGN.md 5/C11).
-After the intact run the same addresses are delivered again with users/cdb truncated (generated lengths in the
-quick tier, every length for a share of the scenarios in the thorough tier), replaced by a directory, and under
+After the intact run the same addresses are delivered again with users/cdb truncated (a few cuts in header/records
+- they all defer, the break-character record is the last one - and a spread sample of cuts inside the hash tables in
+the quick tier, every cut inside the hash tables for a share of the scenarios in the thorough tier), replaced by a
+directory, and under
 single lookup faults (getpwnam ETXTBSY, stat EIO in qmail-getpw, failing setgroups/setgid/setuid): the delivery
 must be the same as with the intact file or be deferred (Z) - never D, never another user, never an exec with
 half-switched credentials.  Malformed tables (missing "." line, NUL, missing colon fields) must be refused by
@@ -17,6 +19,8 @@ Part B (in-process, inproc/c11_cdb.c): writer<->reader differential of the cdb c
 (duplicate keys, empty key, 0..300-byte keys, > 256 records, keys forced into one hash table so that the probe
 wraps around) written with cdbmss_*/cdbmake_* and read back with cdb_seek/cdb_bread: every stored key returns its
 FIRST value, absent keys (near misses included) return 0.
+
+A violation found by the search is re-executed twice more and counts only if it reproduces 3/3 (DESIGN.md section 1).
 
 Left out relative to the design: rapidcheck is replaced by a seeded generator (same domain); qmail-pw2u is not
 exercised; random byte flips of users/cdb belong to C20."""
@@ -661,7 +665,7 @@ def run_cdb(ctx, tree):
     binp = build_cdb(tree)
     d = os.path.join(vlib.scratch_root(), "c11-cdbfiles")
     os.makedirs(d, exist_ok=True)
-    cnt = ctx.n(800, 25000)
+    cnt = ctx.n(1000, 20000)
     cmds = [[binp, "--rand", str(vlib.subseed(ctx.seed, "c11cdb", i)), str(cnt), os.path.join(d, "f%d" % i)] for i in range(vlib.NCPU)]
     res = inproc.run_shards(cmds)
     viols = inproc.merge_c_stats(ctx, res, "cdb")
@@ -695,7 +699,7 @@ def run(ctx):
     if not only or "lspawn" in only:
         reg = regress_scenarios()
         nw = vlib.NCPU
-        per = ctx.n(320, 3000)
+        per = ctx.n(450, 2400)
         jobs = [(tree, i, vlib.subseed(ctx.seed, "c11", i), per, ctx.tier, reg[i::nw]) for i in range(nw)]
         ctx.stats.merge(vlib.run_workers(worker, jobs))
     ctx.notes["conf_break"] = tree.conf("conf-break")[:1]
